@@ -1,4 +1,5 @@
 import VelaVerif.Spec.Mem
+import VelaVerif.Spec.Inference
 import VelaVerif.Handlers.Util
 /-!
 Protocol for whole command streams (pipeline artefacts and extapi streams):
@@ -56,6 +57,30 @@ def parseInit (s : String) : Option Mem.Memory :=
       some (m.setMap r (IMap.write (m.getMap r) a (a + l) t d))
     | _ => none) []
 
+
+/-- `T:region:addr:len:tid:delta` records separated by `,` -/
+def parseTagged (s : String) : Option (List Inference.Tagged) :=
+  (splitNonEmpty s ",").mapM fun p =>
+    match p.splitOn ":" with
+    | [r, a, l, t, d] => do
+      some ⟨← parseNat? r, ← parseNat? a, ← parseNat? l, ← parseNat? t, ← parseInt? d⟩
+    | _ => none
+
+/-- one step token: `cpu~<name>~<reads>~<writes>` or `npu~<infos ;-separated>~<words ,-separated>` -/
+def parseStep (s : String) : Option (Except String Inference.Step) :=
+  match s.splitOn "~" with
+  | ["cpu", name, rd, wr] => do
+    some (.ok (.cpu name (← parseTagged rd) (← parseTagged wr)))
+  | ["npu", infos, words] => do
+    let infos ← (splitNonEmpty infos ";").mapM parseInfo
+    let words ← parseNats (splitNonEmpty words ",")
+    match decodeStream words with
+    | .error e => some (.error e)
+    | .ok st =>
+      let ops := st.ops.map (·.op)
+      if infos.length ≠ ops.length then some (.error "infos-mismatch") else some (.ok (.npu ops infos))
+  | _ => none
+
 def firstFew (l : List String) (n : Nat := 3) : String := " ~ ".intercalate (l.take n)
 
 def handle : List String → Option String
@@ -77,6 +102,20 @@ def handle : List String → Option String
         let b := checkBounds env ops infos
         let t := execTagged env init ops infos ++ constSourceProblems env ops infos
         some s!"decode=ok | ops={ops.length} stops={st.stops} endstop={boolStr st.endsWithStop} trailing={st.trailing} | bounds={b.length} {firstFew b} | tagged={t.length} {firstFew t}"
+  | "inferencecheck" :: toks => do
+    -- whole-inference tagged execution: `inferencecheck shram= lutbase= ext= init= step=… step=…`
+    let shram ← parseNat? (← kv toks "shram")
+    let lutbase ← parseNat? (← kv toks "lutbase")
+    let ext ← parseExt (← kv toks "ext")
+    let init ← parseInit ((kv toks "init").getD "")
+    let stepToks := toks.filterMap fun t => if t.startsWith "step=" then some (t.drop 5).toString else none
+    let parsed ← stepToks.mapM parseStep
+    match parsed.mapM id with
+    | .error e => some s!"decode={e.replace " " "_"}"
+    | .ok steps =>
+      let env : Mem.Env := { extents := ext, shramBytes := shram, lutBase := lutbase }
+      let t := Inference.execInference env init steps
+      some s!"decode=ok | steps={steps.length} | tagged={t.length} {firstFew t}"
   | ["fastextent", ext, cache] => do
     -- C02, Dedicated-SRAM clause: published fast-scratch extent never exceeds the arena cache size
     some (boolStr (decide ((← parseNat? ext) ≤ (← parseNat? cache))))
